@@ -12,6 +12,7 @@ for p in (os.path.join(VERIF, "stubs"), REPO):
     if p not in sys.path:
         sys.path.insert(0, p)
 
+import numpy as np  # noqa: E402
 import z3  # noqa: E402
 
 from symx import values as V  # noqa: E402
@@ -27,6 +28,10 @@ COMMON_ASSUMPTIONS = [
     "import-only stubs for gmpy2.qdiv (exact rational division) and tqdm (identity iterator), absent from /venv",
     "z3 is trusted for unsat answers; sat answers are replayed on the real code before being reported",
 ]
+
+
+def _concrete():
+    return getattr(V.get_context(), "concrete", False)
 
 
 def AND(*xs):
@@ -48,6 +53,8 @@ def IMPLIES(a, b):
 def EQ(a, b):
     """symbolic equality without forking"""
     if not is_sym(a) and not is_sym(b):
+        if _concrete() and (isinstance(a, (float, np.floating)) or isinstance(b, (float, np.floating))):
+            return bool(abs(a - b) <= 1e-9 * (1.0 + abs(a) + abs(b)))  # float re-execution of a counterexample
         return a == b
     ta, tb, _ = V._both(a, b)
     return SymBool(ta == tb)
@@ -69,6 +76,8 @@ def EQ_RATIONAL(a, b):
     so that no division reaches the solver; the denominators are non-zero by the harness' assumptions"""
     from symx import measure as M
 
+    if _concrete():
+        return EQ(float(a) if not is_sym(a) else a, float(b) if not is_sym(b) else b)
     num, den = M.frac(V.term_of(a) - V.term_of(b))
     num = z3.simplify(num, som=True)
     return SymBool(num == 0)
